@@ -5,7 +5,14 @@ package malx
 
 import (
 	"bytes"
+	"compress/zlib"
+	"crypto/sha1"
+	"crypto/sha256"
+	"crypto/sha512"
 	"encoding/binary"
+	"fmt"
+	"io"
+	"regexp"
 )
 
 type Field struct {
@@ -15,6 +22,9 @@ type Field struct {
 	BE    bool // big endian
 	Width int  // for ASCII fields
 	Octal bool
+	// Rewrite, when set, produces the corrupted artifact itself (fields that live inside a compressed part)
+	Rewrite func(d []byte, v uint64) []byte
+	Orig    uint64
 }
 
 func le16(b []byte, o int) int { return int(binary.LittleEndian.Uint16(b[o:])) }
@@ -181,11 +191,76 @@ func machoFields(d []byte) []Field {
 	return f
 }
 
+var reXarNum = map[string]*regexp.Regexp{
+	"toc.checksumSize": regexp.MustCompile(`(?s)(<checksum[^>]*>.*?<size>)(\d+)(</size>)`),
+	"toc.sigOffset":    regexp.MustCompile(`(?s)(<signature[^>]*>.*?<offset>)(\d+)(</offset>)`),
+	"toc.sigSize":      regexp.MustCompile(`(?s)(<signature[^>]*>.*?<size>)(\d+)(</size>)`),
+	"toc.xsigSize":     regexp.MustCompile(`(?s)(<x-signature[^>]*>.*?<size>)(\d+)(</size>)`),
+	"toc.xsigOffset":   regexp.MustCompile(`(?s)(<x-signature[^>]*>.*?<offset>)(\d+)(</offset>)`),
+	"toc.dataLength":   regexp.MustCompile(`(?s)(<data>.*?<length>)(\d+)(</length>)`),
+	"toc.dataOffset":   regexp.MustCompile(`(?s)(<data>.*?<offset>)(\d+)(</offset>)`),
+	"toc.dataSize":     regexp.MustCompile(`(?s)(<data>.*?<size>)(\d+)(</size>)`),
+}
+
 func xarFields(d []byte) []Field {
 	if len(d) < 28 || string(d[:4]) != "xar!" {
 		return nil
 	}
-	return []Field{{Name: "hdr.size", Off: 4, Size: 2, BE: true}, {Name: "hdr.tocLenZ", Off: 8, Size: 8, BE: true}, {Name: "hdr.tocLen", Off: 16, Size: 8, BE: true}}
+	f := []Field{{Name: "hdr.size", Off: 4, Size: 2, BE: true}, {Name: "hdr.tocLenZ", Off: 8, Size: 8, BE: true}, {Name: "hdr.tocLen", Off: 16, Size: 8, BE: true}}
+	// numbers inside the zlib-compressed table of contents
+	hs := int(binary.BigEndian.Uint16(d[4:]))
+	lz := int(binary.BigEndian.Uint64(d[8:]))
+	if hs+lz > len(d) {
+		return f
+	}
+	zr, err := zlib.NewReader(bytes.NewReader(d[hs : hs+lz]))
+	if err != nil {
+		return f
+	}
+	toc, err := io.ReadAll(zr)
+	if err != nil {
+		return f
+	}
+	for name, re := range reXarNum {
+		m := re.FindSubmatchIndex(toc)
+		if m == nil {
+			continue
+		}
+		var orig uint64
+		fmt.Sscan(string(toc[m[4]:m[5]]), &orig)
+		a, b := m[4], m[5]
+		f = append(f, Field{Name: name, Size: 4, Orig: orig, Rewrite: func(d []byte, v uint64) []byte {
+			nt := append(append(append([]byte(nil), toc[:a]...), []byte(fmt.Sprint(v))...), toc[b:]...)
+			var zb bytes.Buffer
+			zw := zlib.NewWriter(&zb)
+			zw.Write(nt)
+			zw.Close()
+			out := append([]byte(nil), d[:hs]...)
+			binary.BigEndian.PutUint64(out[8:], uint64(zb.Len()))
+			binary.BigEndian.PutUint64(out[16:], uint64(len(nt)))
+			out = append(out, zb.Bytes()...)
+			heap := append([]byte(nil), d[hs+lz:]...)
+			// the heap starts with the digest of the compressed table of contents: keep it consistent, so that the parser
+			// gets as far as using the corrupted number
+			var sum []byte
+			switch {
+			case bytes.Contains(toc, []byte(`<checksum style="sha1">`)):
+				h := sha1.Sum(zb.Bytes())
+				sum = h[:]
+			case bytes.Contains(toc, []byte(`<checksum style="sha256">`)):
+				h := sha256.Sum256(zb.Bytes())
+				sum = h[:]
+			case bytes.Contains(toc, []byte(`<checksum style="sha512">`)):
+				h := sha512.Sum512(zb.Bytes())
+				sum = h[:]
+			}
+			if len(heap) >= len(sum) {
+				copy(heap, sum)
+			}
+			return append(out, heap...)
+		}})
+	}
+	return f
 }
 
 func dmgFields(d []byte) []Field {
